@@ -49,6 +49,20 @@ func isWrite(op string) bool {
 	return strings.HasPrefix(op, "http PUT ") || strings.HasPrefix(op, "http POST ")
 }
 
+// readBucket: the operation is an HTTP GET of an object under BucketsPath ("/buckets/<bucket>/...");
+// which bucket
+func readBucket(op string) (string, bool) {
+	const pre = "http GET /buckets/"
+	if !strings.HasPrefix(op, pre) {
+		return "", false
+	}
+	rest := op[len(pre):]
+	if i := strings.IndexAny(rest, "/ "); i >= 0 {
+		rest = rest[:i]
+	}
+	return rest, true
+}
+
 func newFilerStub() *filerStub {
 	f := &filerStub{}
 	gl, err := net.Listen("tcp", "127.0.0.1:0")
@@ -79,6 +93,11 @@ func newFilerStub() *filerStub {
 	go http.Serve(hl, http.HandlerFunc(func(w http.ResponseWriter, r *http.Request) {
 		io.Copy(io.Discard, r.Body)
 		f.record("http " + r.Method + " " + r.URL.Path + " #" + r.Header.Get(caseTagHeader))
+		// the one kind of object the stand-in HOLDS: ".../src" in every bucket (the source of a copy)
+		if r.Method == "GET" && strings.HasSuffix(r.URL.Path, "/src") {
+			w.Write([]byte("source object data"))
+			return
+		}
 		http.Error(w, "verif filer stub", http.StatusInternalServerError)
 	}))
 	return f
